@@ -3,7 +3,7 @@
 (* Declarative meaning of the library's pure operations, one judgement per *)
 (* operation:  Judge(record) = set of clauses the recorded call violates.  *)
 (***************************************************************************)
-EXTENDS ClassIds, F2, TLC
+EXTENDS ClassIds, F2, Tomography, TLC
 
 C(cond, clause) == IF cond THEN {} ELSE {clause}
 
@@ -191,7 +191,93 @@ JudgeLayer(r) ==
                                                    /\ Body(ApplySeq(r.gates, ZOn(q))) = ApplyBlocks(r.blocks, ZOn(q)), "circuit")
          [] OTHER -> {"unknown-result"}
 
+(***************************************************************************)
+(* Tomography (C10, C11, C12).                                             *)
+(*                                                                         *)
+(* measure: the spec computes the exact (integer-scaled) statistics of a   *)
+(* mixture sum_k w_k |psi_k><psi_k| measured after `ro` on the listed      *)
+(* qubits: circuits[k] is the k-th component's full circuit (its own       *)
+(* preparation followed by the common readout part).  The result is handed *)
+(* to the real fitter by the harness.                                      *)
+(***************************************************************************)
+ZTabN(N) == [i \in 1..N |-> ZOn(i - 1)]
+RECURSIVE SumThird(_)
+SumThird(S) == IF S = {} THEN 0 ELSE LET t == CHOOSE t \in S : TRUE IN t[3] + SumThird(S \ {t})
+MeasureOutput(r) ==
+   LET T == UNION { LET ck == CountsOf(SignedSpan(ApplySeqTab(r.circuits[k], ZTabN(r.N))), r.N, r.weights[k])
+                    IN  {<<k, b, ck[b]>> : b \in DOMAIN ck} : k \in 1..Len(r.circuits) }
+       bs == {t[2] : t \in T}
+   IN  {<<KeyChars(b, r.N), SumThird({t \in T : t[2] = b})>> : b \in bs}
+
+(***************************************************************************)
+(* fitter: expectation_values() of a StabilizerMeasurementFitter evaluated *)
+(* on an ARBITRARY count dictionary.  ro = readout circuit on m qubits,    *)
+(* list = measured qubits, counts = the dictionary, full = 1 when keys are *)
+(* N-qubit Paulis; values = <<x, z, qiskit phase, num, den>> per entry.    *)
+(* For every mask s the operator measured is U^dagger Z^s U = +-P and the  *)
+(* value reported under the unsigned P must be +-Parity(counts, s).        *)
+(***************************************************************************)
+IdList(m) == [i \in 1..m |-> i - 1]
+ExpectedEntries(r) ==
+   LET tot == Total(r.counts, 1)
+       lst == r.list
+   IN  {LET p == PullBack(r.ro, ZMask(s))
+            par == ParitySum(r.counts, lst, s, 1)
+            key == IF r.full = 1 THEN Embed(Mk(XM(p), ZM(p), 0), lst) ELSE Body(p)
+        IN  <<key, IF SG(p) = 1 THEN -par ELSE par, tot>> : s \in 1..(P2(r.m) - 1)}
+       \cup {<<Identity, tot, tot>>}
+JudgeFitter(r) ==
+   LET exp == ExpectedEntries(r)
+       keysE == {e[1] : e \in exp}
+       got == {<<Mk(r.values[i][1], r.values[i][2], 0), r.values[i][4], r.values[i][5]>> : i \in 1..Len(r.values)}
+   IN  C(Len(r.values) = P2(r.m) /\ Cardinality({g[1] : g \in got}) = P2(r.m), "entries")
+       \cup C(\A i \in 1..Len(r.values) : r.values[i][3] = 0, "signed-key")
+       \cup C({g[1] : g \in got} = keysE, "keys")
+       \cup C(\A g \in got : \A e \in exp : g[1] = e[1] => g[2] * e[3] = e[2] * g[3], "value")
+
+(***************************************************************************)
+(* tomo: end to end on exact statistics.  comps[k] = <<weight, preparation *)
+(* gates>> of the k-th component of the input state on N qubits; values    *)
+(* as above.  Every reported value must be Tr(rho P) = sum_k w_k <P>_k / W *)
+(* with P placed on the measured qubits in the order of the list.          *)
+(* kind "full": all 4^m Paulis; kind "stab": exactly the sign-free group   *)
+(* of the measured stabilizer `meas`.                                      *)
+(***************************************************************************)
+JudgeTomo(r) ==
+   LET K == Len(r.comps)                           \* at most 4 components
+       Z0 == ZTabN(r.N)
+       G1 == SignedSpan(ApplySeqTab(r.comps[1][2], Z0))
+       G2 == IF K >= 2 THEN SignedSpan(ApplySeqTab(r.comps[2][2], Z0)) ELSE {}
+       G3 == IF K >= 3 THEN SignedSpan(ApplySeqTab(r.comps[3][2], Z0)) ELSE {}
+       G4 == IF K >= 4 THEN SignedSpan(ApplySeqTab(r.comps[4][2], Z0)) ELSE {}
+       w(k) == IF k <= K THEN r.comps[k][1] ELSE 0
+       WT == w(1) + w(2) + w(3) + w(4)
+       E(p) == w(1) * Exp(G1, p) + (IF K >= 2 THEN w(2) * Exp(G2, p) ELSE 0)
+               + (IF K >= 3 THEN w(3) * Exp(G3, p) ELSE 0) + (IF K >= 4 THEN w(4) * Exp(G4, p) ELSE 0)
+       keyN(i) == LET p == Mk(r.values[i][1], r.values[i][2], 0) IN IF r.full = 1 THEN p ELSE Embed(p, r.list)
+       keys == {Mk(r.values[i][1], r.values[i][2], 0) : i \in 1..Len(r.values)}
+       expectedKeys == IF r.kind = "full"
+                       THEN {Mk(x, z, 0) : x \in 0..(P2(r.m) - 1), z \in 0..(P2(r.m) - 1)}
+                       ELSE Span(r.meas)
+   IN  C(K \in 1..4, "bad-input")
+       \cup C(Len(r.values) = Cardinality(keys) /\ Len(r.values) = (IF r.kind = "full" THEN P2(2 * r.m) ELSE P2(r.m)), "entries")
+       \cup C(\A i \in 1..Len(r.values) : r.values[i][3] = 0, "signed-key")
+       \cup C(keys = (IF r.full = 1 THEN {Embed(p, r.list) : p \in expectedKeys} ELSE expectedKeys), "keys")
+       \cup C(\A i \in 1..Len(r.values) : r.values[i][4] * WT = E(keyN(i)) * r.values[i][5], "value")
+
+(* CircuitResult(counts, qubits): stored bit strings are the marginals in list order (C11) *)
+JudgeMarginal(r) ==
+   C(Len(r.stored) = Len(r.counts) /\ \A i \in 1..Len(r.counts) :
+        r.stored[i] = <<(IF r.haslist = 1 THEN Marginal(KeyToBits(r.counts[i][1]), r.list) ELSE KeyToBits(r.counts[i][1])), r.counts[i][2]>>, "marginal")
+   \cup C(r.nq = (IF r.haslist = 1 THEN Len(r.list) ELSE r.N), "num-qubits")
+
+Output(r) == IF r.op = "measure" THEN MeasureOutput(r) ELSE {}
+
 Judge(r) == CASE r.op = "classify" -> JudgeClassify(r)
+              [] r.op = "measure" -> {}
+              [] r.op = "fitter" -> JudgeFitter(r)
+              [] r.op = "tomo" -> JudgeTomo(r)
+              [] r.op = "marginal" -> JudgeMarginal(r)
               [] r.op = "denote" -> JudgeDenote(r)
               [] r.op = "pred" -> JudgePred(r)
               [] r.op = "layer" -> JudgeLayer(r)
